@@ -4,6 +4,7 @@ import (
 	"encoding/binary"
 	"math"
 	"sort"
+	"strconv"
 
 	"pgregory.net/rapid"
 )
@@ -70,6 +71,11 @@ func (g *gen) stmt(depth int) []Stmt {
 	g.stmtBudget--
 	if g.inLoop > 0 && g.outSlot != nil && g.chance(8, "accidiom") {
 		if s := g.accumulatorIdiom(); s != nil {
+			return s
+		}
+	}
+	if g.outSlot != nil && g.chance(4, "shidiom") && !g.f.off("shadow.abstract-const-scope") {
+		if s := g.constScopeIdiom(); s != nil {
 			return s
 		}
 	}
@@ -168,6 +174,37 @@ func (g *gen) accumulatorIdiom() []Stmt {
 	upd := &Assign{L: &VarRef{v}, Op: op, R: g.runtimeLeaf(k)}
 	obs := &Assign{L: g.buildPath(cands[g.intn(len(cands), "accobs")], 1, true), R: &VarRef{v}}
 	return []Stmt{&DeclStmt{V: v}, upd, obs}
+}
+
+// constScopeIdiom declares an abstract function-scope const and a run-time variable of the SAME name in
+// nested / consecutive scopes: the const must stop being visible at the end of its block, and an inner
+// declaration must hide it.
+func (g *gen) constScopeIdiom() []Stmt {
+	t := TI32
+	cands := g.pathsTo([]Expr{g.outSlot()}, func(x *Type) bool { return x.Same(t) })
+	if len(cands) == 0 {
+		return nil
+	}
+	slot := func() Expr { return g.buildPath(cands[g.intn(len(cands), "shobs")], 1, true) }
+	nm := g.name("sh")
+	cv := uint32(2 + g.intn(6, "shc"))
+	c := &Var{Name: nm, Kind: VConst, T: t, NoType: true, Init: &Lit{T: t, Bits: cv, Text: strconv.Itoa(int(cv))}}
+	v := &Var{Name: nm, Kind: VVar, T: t, NoType: true, Init: g.runtimeLeaf(I32)}
+	bump := &Assign{L: &VarRef{v}, Op: "+", R: &Lit{T: t, Bits: 1}}
+	useC := func() Stmt {
+		return &Assign{L: slot(), R: &Binary{Op: "+", L: g.runtimeLeaf(I32), R: &VarRef{c}, T: t}}
+	}
+	if g.chance(50, "shinner") {
+		// { const n = 3; use } var n = x; n += 1; observe n
+		g.class("stmt:const-scope:block-then-var")
+		inner := &Block{Body: []Stmt{&DeclStmt{V: c}, useC()}}
+		g.declare(v)
+		return []Stmt{inner, &DeclStmt{V: v}, bump, &Assign{L: slot(), R: &VarRef{v}}}
+	}
+	// const n = 3; { var n = x; n += 1; observe n } use the const again
+	g.class("stmt:const-scope:inner-var-hides-const")
+	inner := &Block{Body: []Stmt{&DeclStmt{V: v}, bump, &Assign{L: slot(), R: &VarRef{v}}}}
+	return []Stmt{&DeclStmt{V: c}, inner, useC()}
 }
 
 func (g *gen) declStmt() Stmt {
@@ -646,7 +683,47 @@ func (g *gen) helper() *Func {
 	f.Body = g.block(g.stmtBudget, 2)
 	// the block popped its own scope; params remain
 	if f.Ret != nil {
-		f.Body = append(f.Body, &Return{X: g.expr(f.Ret, g.exprDepth())})
+		ret := func() Stmt { return &Return{X: g.expr(f.Ret, g.exprDepth())} }
+		switch {
+		case g.chance(15, "tailsw") && !g.f.off("fn.tail-switch-return"):
+			// the function ends in a switch whose every case returns (selector groups included)
+			g.class("fn:tail-switch-return")
+			k := []Kind{I32, U32}[g.intn(2, "tswk")]
+			sel := g.expr(Scalar(k), g.exprDepth())
+			sel = &Binary{Op: "%", L: g.nonNegForRem(sel, Scalar(k)), R: &Lit{T: Scalar(k), Bits: 5}, T: Scalar(k)}
+			sw := &Switch{Sel: sel}
+			nc := 1 + g.intn(3, "tswn")
+			next := uint32(0)
+			defIn := g.intn(nc+1, "tswd") // index of the case that carries default in its list (nc: separate default)
+			if g.f.off("switch.default-in-list") {
+				defIn = nc
+			}
+			for i := 0; i < nc; i++ {
+				c := &Case{}
+				for j, ns := 0, 1+g.intn(3, "tswsn"); j < ns; j++ {
+					c.Sels = append(c.Sels, &Lit{T: Scalar(k), Bits: next})
+					next++
+				}
+				if i == defIn {
+					pos := g.intn(len(c.Sels)+1, "tswdp")
+					c.Sels = append(c.Sels[:pos], append([]Expr{nil}, c.Sels[pos:]...)...)
+				}
+				g.inSwitch++
+				c.Body = g.block(g.intn(2, "tswb"), 1)
+				g.inSwitch--
+				c.Body = append(c.Body, ret())
+				sw.Cases = append(sw.Cases, c)
+			}
+			if defIn == nc {
+				sw.Cases = append(sw.Cases, &Case{Default: true, Body: []Stmt{ret()}})
+			}
+			f.Body = append(f.Body, sw)
+		case g.chance(10, "tailif") && !g.f.off("fn.tail-if-return"):
+			g.class("fn:tail-if-return")
+			f.Body = append(f.Body, &If{Cond: g.expr(TBool, 2), Then: []Stmt{ret()}, Else: []Stmt{ret()}})
+		default:
+			f.Body = append(f.Body, ret())
+		}
 	}
 	g.stmtBudget = save
 	g.pop()
